@@ -40,6 +40,7 @@ NALGEBRA = {
     'na_component_mul_assign_3': 'component_mul_assign: 3 elements, entries < 8',
     'na_mul_trmul_add_2x2': 'Mul / tr_mul / Add: 2 x 2, entries < 4',
     'na_diagonal_from_element_2x2': 'diagonal / from_element / zeros',
+    'na_linear_index_iter_3x2': 'Index<usize> is column-major, len() = r*c, iter() visits m[0..len) in order: 3 x 2',
 }
 for _n, _b in NALGEBRA.items():
     HARNESSES[_n] = ('util', 'bounded', _b)
